@@ -205,7 +205,10 @@ def gen_store(rng, force=None):
         models.append({"readouts": off})
     if on:
         models.append({"readouts": on[:1]})
-    return {"d": d, "nodes": nodes, "models": models}
+    # an ESN node built on the SAME reservoir and (Ridge) readout objects: ESN.fit = per-sequence partial_fit from a reset
+    # reservoir copy, then readout.fit()
+    esn = nodes[1]["kind"] == "ridge" and (force is not None or rng.random() < 0.6)
+    return {"d": d, "nodes": nodes, "models": models, "esn": bool(esn)}
 
 
 def gen_batch(rng, d, douts, warmup, nseq, bad=None):
@@ -258,6 +261,11 @@ def gen_ops(rng, store, nops):
             ops.append(dict(op="train", node=i, **gen_batch(rng, d, {i: nodes[i]["dout"]}, 0, 1)))
         elif r < 0.75:
             ops.append({"op": "freeze", "node": rng.choice([0] + readouts), "value": rng.random() < 0.7})
+        elif r < 0.83 and store.get("esn"):
+            w = rng.choice([0, 1, 1, 2])
+            nseq = rng.randint(1, 3)
+            bad = rng.randrange(nseq) if (w > 0 and rng.random() < 0.4) else None
+            ops.append(dict(op="efit", node=1, warmup=w, **gen_batch(rng, d, {1: nodes[1]["dout"]}, w, nseq, bad)))
         elif r < 0.92:
             m = pick_model(("ridge", "sumoff", "sklearn"))
             rd = store["models"][m]["readouts"]
@@ -280,7 +288,7 @@ def gen_scenario(rng, i):
     for o in sc["ops"]:
         if o["op"] == "fit0" and o["node"] not in seen:
             continue
-        if o["op"] in ("run", "partial_fit", "fit", "train"):
+        if o["op"] in ("run", "partial_fit", "fit", "train", "efit"):
             seen.add(o["node"])
         if o["op"] in ("mrun", "mfit", "mtrain"):
             seen.update(sc["models"][o["model"]]["readouts"])
@@ -299,6 +307,10 @@ class World:
         for m in sc["models"]:
             rd = [self.nodes[j] for j in m["readouts"]]
             self.models.append(self.nodes[0] >> (rd if len(rd) > 1 else rd[0]))
+        self.esn = None
+        if sc.get("esn"):
+            from reservoirpy.nodes import ESN
+            self.esn = ESN(reservoir=self.nodes[0], readout=self.nodes[1], workers=1, name=uname("esn"))
 
     def snap(self):
         return [snapshot(k, n) for k, n in zip(self.kinds, self.nodes)]
@@ -330,6 +342,15 @@ class World:
                 self.nodes[j].train(farr(o["X"][0], d), self.ydata(o, j, False))
             elif o["op"] == "freeze":
                 self.nodes[o["node"]].is_trainable = bool(o["value"])
+            elif o["op"] == "efit":
+                # feature oracle: ESN.fit runs every sequence on a reset deep copy of the reservoir
+                feats = []
+                for sq in o["X"]:
+                    rc = copy.deepcopy(self.nodes[0])
+                    if rc.is_initialized:
+                        rc.reset()
+                    feats.append(np.asarray(rc.run(farr(sq, d)), dtype=float).tolist())
+                self.esn.fit([farr(sq, d) for sq in o["X"]], self.ydata(o, 1), warmup=o["warmup"])
             elif o["op"] in ("mfit", "mtrain"):
                 m = o["model"]
                 rd = self.sc["models"][m]["readouts"]
@@ -360,6 +381,9 @@ def runnable(w, o):
         return w.kinds[j] == "sklearn" and (inst is None or not hasattr(inst, "coef_"))
     if o["op"] == "fit0":
         return bool(w.nodes[o["node"]].is_initialized)
+    if o["op"] == "efit":
+        # ESN.fit does not look at is_trainable before creating / cleaning buffers: only unfrozen readouts are modelled
+        return w.esn is not None and bool(w.nodes[1].is_trainable)
     if o["op"] == "run":
         return not sk_unfit(o["node"])
     if o["op"] in ("mrun", "mtrain"):
@@ -387,6 +411,8 @@ def run_history(sc):
         order = None
         if "model" in o:
             order = [[id(x) for x in w.nodes].index(id(n)) for n in w.models[o["model"]].nodes]
+        if o["op"] == "efit":
+            order = [0, 1]
         obs.append({"code": classify(exc), "exc": None if exc is None else "%s: %s" % (type(exc).__name__, str(exc)[:120]),
                     "nodes": per, "feats": feats, "order": order})
         before = after
@@ -432,6 +458,12 @@ def coq_op(sc, o, ob):
         return "OTrain %s (%s, Some %s)" % (nat(j), qmat(F(o["X"][0])), qmat(F(o["Y"][str(j)][0])))
     if o["op"] == "freeze":
         return "OFreeze %s %s" % (nat(o["node"]), coqbool(o["value"]))
+    if o["op"] == "efit":
+        # ESN.fit has the shape of a one-stage Model.fit on [reservoir; readout]: initialize_buffers, partial_fit per sequence
+        # (clean the readout and re-raise on failure), readout.fit()
+        seqs = coqlist([coqlist(["(%s, (%s, Some %s))" % (nat(1), qmat(ob["feats"][k]), qmat(F(o["Y"]["1"][k])))])
+                        for k in range(len(o["X"]))])
+        return "OMFit [%s;%s] %s [] %s" % (nat(0), nat(1), nat(o["warmup"]), seqs)
     rd = sc["models"][o["model"]]["readouts"]
     # members in the order of Model.nodes (observed: it is the order in which Model.fit fits the readouts of a stage)
     members = coqlist([nat(j) for j in ob["order"]])
@@ -483,13 +515,13 @@ def correspondence(ctx):
         for o, ob in zip(sc["ops"], obs):
             k = "%s/%s" % (o["op"], ["done", "rejected", "failed-partial", "failed-backward"][ob["code"]])
             dist[k] = dist.get(k, 0) + 1
-        trained = sum(1 for o, ob in zip(sc["ops"], obs) if o["op"] in ("fit", "mfit", "fit0", "train", "mtrain") and ob["code"] == 0)
+        trained = sum(1 for o, ob in zip(sc["ops"], obs) if o["op"] in ("fit", "mfit", "efit", "fit0", "train", "mtrain") and ob["code"] == 0)
         failed = sum(1 for ob in obs if ob["code"] >= 2)
         if trained >= 2 or (trained >= 1 and failed >= 1):
             nt.add(repr(jsonable(sc)))
     failing, err = core.run_cases(ctx.pid, IMPORTS, terms, chunk=40)
     return {"evaluations": n, "distinct_nontrivial": len(nt),
-            "rule": "seeded histories of 3-8 operations (run, partial_fit, fit with/without data, train, freeze, Model.fit, Model.train, "
+            "rule": "seeded histories of 3-8 operations (run, partial_fit, fit with/without data, train, freeze, Model.fit, ESN.fit, Model.train, "
                     "Model.run; batches of 1-3 sequences with a too-short sequence at a random index in ~1/3 of the fits) on a store of one "
                     "reservoir and 1-2 readouts among Ridge / RLS / LMS / ScikitLearnNode(Ridge) / SumOffline (default buffers), used both "
                     "alone and inside reservoir >> readout(s); after every operation and for every node: which parameter hashes changed, "
@@ -511,7 +543,7 @@ def _targets(w, o):
     sc = w.sc
     off = ("ridge", "sumoff", "sklearn")
     on = ("rls", "lms")
-    if o["op"] in ("fit", "fit0"):
+    if o["op"] in ("fit", "fit0", "efit"):
         j = o["node"]
         return {j} if w.kinds[j] in off and w.nodes[j].is_trainable else set()
     if o["op"] == "train":
@@ -609,7 +641,8 @@ def judge_session(sc):
 
 def gen_session(rng, i):
     """Structured two-fit scenarios for (iii) (iv) (v)."""
-    mode = ["refit-node", "failed-node", "failed-model", "singular-node", "singular-model", "refit-model", "refit-default", "failed-default"][i % 8]
+    mode = ["refit-node", "failed-node", "failed-model", "singular-node", "singular-model", "refit-model", "refit-default", "failed-default",
+            "failed-esn", "refit-esn"][i % 10]
     if mode in ("refit-default", "failed-default"):
         store = gen_store(rng, force=[rng.choice(["sumoff", "sklearn"])])
     elif mode.startswith("singular"):
@@ -617,6 +650,8 @@ def gen_session(rng, i):
         store["d"] = d = 2
         store["nodes"][0].update(din=2, dout=2, xin=2, W=[[0, 0], [0, 0]], Win=[[1, 0], [0, 1]], b=[[0], [0]], lr=Fraction(1))
         store["nodes"][1].update(din=2, lam=Fraction(0), bias=False)
+    elif mode.endswith("esn"):
+        store = gen_store(rng, force=["ridge"])
     else:
         store = gen_store(rng, force=rng.choice([["ridge"], ["ridge", "ridge"]]))
     d, nodes = store["d"], store["nodes"]
@@ -624,11 +659,12 @@ def gen_session(rng, i):
     rd = store["models"][0]["readouts"] if model else [1]
     douts = {j: nodes[j]["dout"] for j in rd}
     w = rng.choice([1, 2]) if mode.startswith("failed") else rng.choice([0, 1])
-    tgt = {"op": "mfit", "model": 0, "kw": {"reset": True}} if model else {"op": "fit", "node": 1}
+    tgt = {"op": "mfit", "model": 0, "kw": {"reset": True}} if model else {"op": "efit", "node": 1} if mode.endswith("esn") \
+        else {"op": "fit", "node": 1}
     nseq = rng.randint(2, 3)
     if mode.startswith("failed"):
         first = dict(tgt, warmup=w, **gen_batch(rng, d, douts, w, nseq, rng.randint(1, nseq - 1)))
-        key = "failed-fit:partial-sums-kept:%s" % ("model" if model else "node")
+        key = "failed-fit:partial-sums-kept:%s" % ("model" if model else "esn" if mode.endswith("esn") else "node")
     elif mode.startswith("singular"):
         # second input column null and ridge = 0: XXT is exactly singular -> LinAlgError in backward
         b = gen_batch(rng, d, douts, w, nseq)
@@ -661,7 +697,7 @@ def judge(case):
 
 def oracle(ctx, scale=1):
     rng = ctx.rng("oracle")
-    out, n1, n2 = [], ctx.n(60, 500) * scale, ctx.n(64, 560) * scale
+    out, n1, n2 = [], ctx.n(60, 500) * scale, ctx.n(70, 560) * scale
     dist = {}
     for i in range(n1):
         sc = gen_scenario(rng, i)
@@ -677,7 +713,7 @@ def oracle(ctx, scale=1):
     return {"evaluations": n1 + n2, "violations": out, "distribution": dist,
             "rule": "(i)/(ii) sha256 of every parameter and hyper of every node before/after each operation of a random history: fixed ones "
                     "never change, learned ones only on trainable targets of a training operation; (iii)-(v) two-fit sessions on Ridge, "
-                    "reservoir >> Ridge(s), SumOffline and ScikitLearnNode: second fit after a completed fit / after a fit failing at "
+                    "reservoir >> Ridge(s), ESN(reservoir, Ridge), SumOffline and ScikitLearnNode: second fit after a completed fit / after a fit failing at "
                     "sequence k >= 1 / after a fit whose solve is singular == the same fit on fresh objects, and independent of the "
                     "first fit's data"}
 
